@@ -87,6 +87,8 @@ COST_VARIANTS = {
     "python-ignore": dict(CostModelType="python", IgnoreLiterals=True, IgnoreIdentifiers=True, EnableDFAAnalysis=False),
     "default": dict(CostModelType="default", EnableDFAAnalysis=False),
     "weighted": dict(CostModelType="weighted", EnableDFAAnalysis=False),
+    # a name NewCloneDetector does not know: falls back to the plain Python cost model (clone_detector.go:293)
+    "unknown-name": dict(CostModelType="no-such-model", EnableDFAAnalysis=False),
 }
 
 
